@@ -362,6 +362,15 @@ func finish(c *Ctx, pd *propDef) int {
 				continue
 			}
 		}
+		if !inBase && strings.Contains(it.Name, "/safe:") && !strings.Contains(it.Name, "/via ") {
+			// a new fault-capable instruction in a function whose own safety obligations were all discharged on the
+			// pinned tree: the function was proved safe for every input and no longer is
+			if root := it.Name[:strings.Index(it.Name, "/")]; ownSafetyAllDischarged(c.Baseline, root) {
+				regressed[it.Name] = "new fault-capable instruction that is not proved safe, in a function all of whose own safety obligations were discharged on the pinned tree"
+				needReplay = append(needReplay, it)
+				continue
+			}
+		}
 		switch {
 		case inBase && be.Status == "discharged" && be.Hash == it.Hash:
 			flaky = append(flaky, it.Name)
@@ -692,4 +701,20 @@ func clauseAllDischarged(base map[string]BaseEntry, key string) (all bool, seen 
 		}
 	}
 	return
+}
+
+// ownSafetyAllDischarged: the baseline holds safety obligations of the function's own instructions (not of inlined
+// helpers) and every one of them was discharged.
+func ownSafetyAllDischarged(base map[string]BaseEntry, root string) bool {
+	seen := false
+	for n, be := range base {
+		if !strings.HasPrefix(n, root+"/safe:") {
+			continue
+		}
+		seen = true
+		if be.Status != "discharged" {
+			return false
+		}
+	}
+	return seen
 }
